@@ -78,7 +78,7 @@ struct PoolBox {
     }
     // loads every grammar file into the pool; returns the log of the load (errors are part of the recorded behaviour of A only)
     std::string load(const std::vector<std::pair<std::string, bool>>& files, bool fullChecking) {
-        Collect c; SAX2XMLReaderImpl* p = reader(c, fullChecking); p->setFeature(XMLUni::fgXercesCacheGrammarFromParse, true);
+        Collect c; SAX2XMLReaderImpl* p = reader(c, fullChecking); p->setFeature(XMLUni::fgXercesCacheGrammarFromParse, true); p->setFeature(XMLUni::fgXercesDynamic, false);      // validation always: a DTD's own validity errors are reported at load time
         for (auto& f : files) { c.out += "load " + f.first + "\n"; try { std::u16string sys = X(("/sim/" + f.first).c_str()); LocalFileInputSource src((const XMLCh*)sys.c_str()); Grammar* g = p->loadGrammar(src, f.second ? Grammar::DTDGrammarType : Grammar::SchemaGrammarType, true); c.out += g ? "  grammar cached\n" : "  no grammar\n"; } catch (const XMLException& e) { c.out += "  XMLException " + pu8(e.getMessage()) + "\n"; } catch (const SAXException& e) { c.out += "  SAXException " + pu8(e.getMessage()) + "\n"; } catch (const OutOfMemoryException&) { c.out += "  OutOfMemory\n"; } }
         delete p; return c.out;
     }
@@ -127,7 +127,7 @@ public:
         int ni = tier == "quick" ? r.range(3, 8) : r.range(3, 14); for (int i = 0; i < ni; i++) { const GenSchema& g = gs[r.below(gs.size())]; std::string x = sg.instance(g); if (r.chance(1, 10)) { Rng mr = r.sub(("mut" + std::to_string(i)).c_str()); mutateBytes(mr, x); } insts.push(x); }
         int nd = (int)r.below(3); Rng dr = r.sub("dtds"); for (int i = 0; i < nd; i++) { GenDtd d = genDtd(dr, i); Json f = Json::obj(); f.set("file", d.file); f.set("text", d.text); f.set("dtd", true); files.push(f); for (auto& x : d.instances) insts.push(x); kinds.set("dtd", (long long)(kinds.geti("dtd", 0) + 1)); }
         plan.set("files", files); plan.set("instances", insts); plan.set("kinds", kinds);
-        plan.set("restart", r.chance(1, 2)); plan.set("lock", r.chance(1, 2)); plan.set("full", r.chance(1, 3)); plan.set("flip", r.chance(1, 3));
+        plan.set("restart", r.chance(1, 2)); plan.set("lock", r.chance(1, 2)); plan.set("full", r.chance(1, 3)); plan.set("flip", r.chance(1, 3)); plan.set("serlocked", r.chance(1, 2));
         return plan;
     }
     std::vector<Json> shrinkCandidates(const Json& plan) override {
@@ -157,6 +157,7 @@ public:
             if (getenv("POOLSIM_LOADLOG")) fprintf(stderr, "%s", loadLog.c_str());
             grammarErrors = loadLog.find("\nERROR") != std::string::npos || loadLog.find("\nFATAL") != std::string::npos || loadLog.find("Exception") != std::string::npos; g_run.probe(grammarErrors ? "pool_with_grammar_errors" : "pool_clean");
             if (grammarsA) {
+                if (lock && plan.getb("serlocked")) { A.pool->lockPool(); g_run.probe("serialised_while_locked"); }      // the stream then carries the lock status
                 try { BinMemOutputStream out(64 * 1024); A.pool->serializeGrammars(&out); bytes.assign((const char*)out.getRawBuffer(), (size_t)out.getSize()); g_run.probes["serialised_bytes"] += bytes.size(); }
                 catch (const XSerializationException& e) { fail("pool-serialize-throws", "serializeGrammars of the original pool raised XSerializationException: " + pu8(e.getMessage())); }
                 catch (const XMLException& e) { fail("pool-serialize-throws", "serializeGrammars of the original pool raised " + pu8(e.getType()) + ": " + pu8(e.getMessage())); }
@@ -196,4 +197,69 @@ public:
     }
 };
 
+// ---------------------------------------------------------------------------------------------- C15, cached-grammar clauses
+// "Validating with a grammar that was preloaded (loadGrammar) or cached from an earlier parse yields the same verdicts, defaults and
+//  type information as parsing the grammar inline ... and a locked grammar pool is never modified."  One plan = generated grammars in
+// a simulated file system + instances that name them (xsi:schemaLocation / DOCTYPE). Used by histsim as a sub-mode of C15 (the library
+// is initialised by the caller).
+struct PoolTransparency {
+    static Json generate(Rng r, const std::string& tier) {
+        Json plan = Json::obj(); plan.set("mode", "C15pool"); SchemaGen sg(r.sub("schemas")); int ns = r.range(1, 2); std::vector<GenSchema> gs; Json files = Json::arr(), insts = Json::arr();
+        for (int i = 0; i < ns; i++) gs.push_back(sg.make(i, i > 0 ? &gs[(size_t)i - 1] : nullptr));
+        for (int i = ns - 1; i >= 0; i--) { Json f = Json::obj(); f.set("file", gs[(size_t)i].file); f.set("text", gs[(size_t)i].text); f.set("dtd", false); files.push(f); }
+        int ni = tier == "quick" ? r.range(2, 5) : r.range(2, 9);
+        for (int i = 0; i < ni; i++) { const GenSchema& g = gs.back(); std::string x = sg.instance(g); std::string hint = g.ns.empty() ? " xsi:noNamespaceSchemaLocation=\"" + g.file + "\"" : " xsi:schemaLocation=\"" + g.ns + " " + g.file + "\"";
+            if (x.find("SchemaLocation=") == std::string::npos) { size_t at = x.find(" xmlns:xsi="); if (at != std::string::npos) x.insert(at, hint); } insts.push(x); }
+        // either schemas or a DTD: a pool must not hold a grammar the instance would not load itself (a no-namespace schema in the pool
+        // captures the elements of a DTD document), or "same as inline" is not what the statement promises
+        if (r.chance(1, 3)) { files = Json::arr(); insts = Json::arr(); Rng dr = r.sub("dtds"); GenDtd d = genDtd(dr, 0); Json f = Json::obj(); f.set("file", d.file); f.set("text", d.text); f.set("dtd", true); files.push(f); for (auto& x : d.instances) insts.push(x); }
+        plan.set("files", files); plan.set("instances", insts); plan.set("full", r.chance(1, 3)); plan.set("lock", r.chance(1, 2));
+        return plan;
+    }
+    static std::vector<Json> shrinkCandidates(const Json& plan) { std::vector<Json> c; size_t n = plan.at("instances").a.size(); for (size_t i = 0; i < n && n > 1; i++) { Json p = plan; jsonRemoveAt(p.ref("instances"), i); c.push_back(p); } return c; }
+    // a parser without any preloaded grammar: the instance names its grammar itself
+    static std::string inlineRecord(const std::string& text, bool full, XMLGrammarPoolImpl* ownPool, bool cache, bool useCached) {
+        Collect c; SAX2XMLReaderImpl* p = ownPool ? new SAX2XMLReaderImpl(XMLPlatformUtils::fgMemoryManager, ownPool) : new SAX2XMLReaderImpl(XMLPlatformUtils::fgMemoryManager);
+        p->setFeature(XMLUni::fgSAX2CoreNameSpaces, true); p->setFeature(XMLUni::fgSAX2CoreValidation, true); p->setFeature(XMLUni::fgXercesDynamic, true); p->setFeature(XMLUni::fgXercesSchema, true); p->setFeature(XMLUni::fgXercesSchemaFullChecking, full); p->setFeature(XMLUni::fgXercesIdentityConstraintChecking, true);
+        p->setFeature(XMLUni::fgXercesCacheGrammarFromParse, cache); p->setFeature(XMLUni::fgXercesUseCachedGrammarInParse, useCached || cache); p->setExitOnFirstFatalError(true); p->setContentHandler(&c); p->setErrorHandler(&c); p->setPSVIHandler(&c);
+        try { MemBufInputSource src((const XMLByte*)text.data(), text.size(), "/sim/instance.xml"); p->parse(src); } catch (const SAXParseException&) { c.out += "exception SAXParseException\n"; } catch (const SAXException& e) { c.out += "exception SAXException " + pu8(e.getMessage()) + "\n"; } catch (const XMLException& e) { c.out += "exception XMLException " + pu8(e.getMessage()) + "\n"; } catch (const OutOfMemoryException&) { c.out += "exception OutOfMemory\n"; }
+        delete p; return PoolBox::canonical(c.out);
+    }
+    static void execute(const Json& plan, Outcome& o) {
+        g_run.reset(10000000); bool full = plan.getb("full"); std::vector<std::pair<std::string, bool>> files; std::vector<std::string> insts; for (auto& s : plan.at("instances").a) insts.push_back(s.s);
+        SimFileMgr* fm = new SimFileMgr(); for (auto& f : plan.at("files").a) { SimFile sf; sf.data = f.gets("text"); fm->files["/sim/" + f.gets("file")] = sf; files.emplace_back(f.gets("file"), f.getb("dtd")); }
+        auto fail = [&](const std::string& cls, const std::string& detail) { if (!o.violated) { o.violated = true; o.cls = cls; o.detail = detail; } };
+        {
+            WorldInstall wi(fm, nullptr); PoolBox A; std::string loadLog = A.load(files, full); g_run.tick(); if (getenv("POOLSIM_LOADLOG")) fprintf(stderr, "%s", loadLog.c_str());
+            bool grammarErrors = loadLog.find("\nERROR") != std::string::npos || loadLog.find("\nFATAL") != std::string::npos || loadLog.find("Exception") != std::string::npos || loadLog.find("\nWARNING") != std::string::npos;
+            g_run.probe(grammarErrors ? "pool_with_grammar_errors" : "pool_clean"); size_t grammarsA = A.grammarCount();
+            if (!grammarErrors && grammarsA) {      // (an inline parse would report the grammar's own errors in the middle of the instance's record)
+                o.nontrivial = true;
+                std::vector<std::string> inl; for (auto& x : insts) { inl.push_back(inlineRecord(x, full, nullptr, false, false)); g_run.tick(); }
+                // preloaded
+                for (size_t i = 0; i < insts.size() && !o.violated; i++) { std::string r = A.validate(insts[i], full); g_run.tick(); if (r != inl[i]) { std::string tok; std::string d = firstDiff(inl[i], r, tok); fail("grammar-cache:preloaded-differs:" + tok, "instance " + std::to_string(i) + " validated against grammars preloaded with loadGrammar differs from the parse that loads them inline (shown as original=inline, restored=preloaded): " + d); } }
+                // cached from an earlier parse of the same parser
+                if (!o.violated) { XMLGrammarPoolImpl* own = new XMLGrammarPoolImpl(XMLPlatformUtils::fgMemoryManager);
+                    for (size_t i = 0; i < insts.size() && !o.violated; i++) { std::string r1 = inlineRecord(insts[i], full, own, true, false); g_run.tick(); if (r1 != inl[i]) { std::string tok; std::string d = firstDiff(inl[i], r1, tok); fail("grammar-cache:caching-parse-differs:" + tok, "instance " + std::to_string(i) + " parsed with cacheGrammarFromParse differs from the plain parse (original=plain, restored=caching): " + d); break; }
+                        std::string r2 = inlineRecord(insts[i], full, own, false, true); g_run.tick(); if (r2 != inl[i]) { std::string tok; std::string d = firstDiff(inl[i], r2, tok); fail("grammar-cache:cached-differs:" + tok, "instance " + std::to_string(i) + " validated against the grammar cached by an earlier parse differs from the parse that loads it inline (original=inline, restored=cached): " + d); } }
+                    delete own; }
+                // a locked pool is never modified
+                if (!o.violated && plan.getb("lock")) {
+                    auto snapshot = [&]() { std::string s; try { BinMemOutputStream out(64 * 1024); A.pool->serializeGrammars(&out); s.assign((const char*)out.getRawBuffer(), (size_t)out.getSize()); } catch (const XMLException&) { s = "<throws>"; } return s; };
+                    A.pool->lockPool(); std::string before = snapshot(); std::string modelBefore = A.model();
+                    std::string foreign = "<?xml version=\"1.0\"?>\n<f:r xmlns:f=\"urn:foreign\" xmlns:xsi=\"http://www.w3.org/2001/XMLSchema-instance\" xsi:schemaLocation=\"urn:foreign foreign.xsd\">1</f:r>\n";
+                    SimFile ff; ff.data = "<?xml version=\"1.0\"?>\n<xs:schema xmlns:xs=\"http://www.w3.org/2001/XMLSchema\" targetNamespace=\"urn:foreign\"><xs:element name=\"r\" type=\"xs:integer\"/></xs:schema>\n"; fm->files["/sim/foreign.xsd"] = ff;
+                    for (auto& x : insts) { A.validate(x, full); g_run.tick(); } A.validate(foreign, full); { Collect c; SAX2XMLReaderImpl* p = A.reader(c, full); p->setFeature(XMLUni::fgXercesCacheGrammarFromParse, true); try { MemBufInputSource src((const XMLByte*)foreign.data(), foreign.size(), "/sim/instance.xml"); p->parse(src); } catch (...) {} delete p; }
+                    if (A.grammarCount() != grammarsA) fail("grammar-cache:locked-pool-modified", "a locked pool has " + std::to_string(A.grammarCount()) + " grammars after parses against it, it had " + std::to_string(grammarsA) + " when it was locked");
+                    else { std::string after = snapshot(); if (after.size() != before.size()) fail("grammar-cache:locked-pool-modified", "the serialised form of a locked pool changed its length (" + std::to_string(before.size()) + " -> " + std::to_string(after.size()) + ") after parses against it"); else if (A.model() != modelBefore) fail("grammar-cache:locked-pool-modified", "the XSModel listing of a locked pool changed after parses against it"); }
+                    A.pool->unlockPool(); g_run.fault("pool_locked_then_parsed_against");
+                }
+            }
+        }
+        delete fm;
+    }
+};
+
+#ifndef POOLSIM_NO_MAIN
 int main(int argc, char** argv) { return driverMain(argc, argv, [](const std::string& p) -> Engine* { if (p == "C16") return new PoolEngine(); return nullptr; }); }
+#endif
